@@ -25,6 +25,7 @@ NGROW = {"quick": 150, "thorough": 3000}
 NREGSC = {"quick": 90, "thorough": 1500}
 NFAILPT = {"quick": 50, "thorough": 900}
 NNANREG = {"quick": 80, "thorough": 1500}
+NPERTURB = {"quick": 240, "thorough": 4000}
 CASE_TIMEOUT = {"quick": 300, "thorough": 900}
 NSAMPLES = 5
 ABANDON_MSGS = ("MAXFUN", "sufficiently small", "model increase", "multiple constraints", "NaN received")
@@ -34,7 +35,8 @@ def cases(tier, seed):
     out = []
     i = 0
     for t, n in (("enum", NENUM[tier]), ("proj", NPROJ[tier]), ("rand", NRAND[tier]), ("atmin", NMIN[tier]), ("grow", NGROW[tier]), ("regscaled", NREGSC[tier]),
-                 ("failpt", NFAILPT[tier]), ("nanregion", NNANREG[tier])):
+                 ("failpt", NFAILPT[tier]), ("nanregion", NNANREG[tier]),
+                 ("perturb", NPERTURB[tier])):
         for _ in range(n):
             out.append(dict(i=i, seed=seed, type=t))
             i += 1
@@ -81,6 +83,25 @@ def make_cfg(seed, i, typ):
             x0 = np.array(cfg["x0"])
             cfg["lower"] = (x0 - 0.5 - r()).tolist()
             cfg["upper"] = (x0 + 0.5 + r()).tolist()
+    elif typ == "perturb":
+        # the other growing method (random perturbation of the trust-region step instead of full-rank interpolation), with a
+        # regulariser, in a box whose lower corner the start sits next to: the perturbed step leaves the box and the evaluation is
+        # made at the clipped point - every objective value used by the acceptance test must be that of the clipped point
+        # (measured: about 2 % of such runs lose their best point on the tree before the repair)
+        n = int(rng.integers(2, 5))
+        spec = gen.gen_problem(rng, kinds=("linear", "linear", "sinlin"), n=n, m=int(rng.integers(1, n + 2)))
+        spec["cond"] = 5.0
+        lo = rng.normal(size=n)
+        hi = lo + 1.5 + 2.0 * rng.random(n)
+        rhobeg = float(gen.pick(rng, [0.1, 0.1, 0.2]))
+        x0 = lo + rhobeg * np.where(rng.random(n) < 0.8, 0.5 * rng.random(n) + 0.02, 5 * rng.random(n))
+        cfg = dict(prob=spec, x0=np.minimum(x0, hi).tolist(), lower=lo.tolist(), upper=hi.tolist(),
+                   user_params={"growing.ndirs_initial": 1, "growing.full_rank.use_full_rank_interp": False,
+                                "growing.perturb_trust_region_step": True, "growing.num_new_dirns_each_iter": int(gen.pick(rng, [1, 1, 1, 0, 2]))},
+                   args=dict(maxfun=int(gen.pick(rng, [8, 8, 12, 20])), rhoend=1e-6, rhobeg=rhobeg),
+                   reg=dict(type=gen.pick(rng, ["l1", "l1", "l2"]), lam=float(10.0 ** rng.uniform(-0.5, 0.5))))
+        if r() < 0.15:
+            cfg.pop("reg")
     elif typ == "nanregion":
         # objective defined only on a disc around (or next to) x0, NaN outside, radius comparable to rhobeg: initial points,
         # geometry steps and the points a soft restart places around the incumbent land outside. With restarts in every mode.
